@@ -98,7 +98,7 @@ func verifH_C13_body_readable() {
 	verifReach("end")
 }
 
-//verif:harness id=C13 tier=quick,thorough witness=end bounds="parameter defaults: query / header / cookie parameter with schema integer default 7 / 7.0 / 1000000.0 (as decoded from JSON), string default 'd', array of integers default [1,2] (style form/spaceDelimited/pipeDelimited, explode on/off), or object default {a:1,b:x} (query deepObject / form exploded or not, header simple exploded or not, cookie form not exploded); parameter absent, present with a value, or present but empty; declared on the operation, on the path item, or on the path item behind a parameter the operation overrides; SkipSettingDefaults on/off; after ValidateRequest the forwarded request carries the default exactly when it was absent and defaults are on; validating the forwarded request again (with a fresh input struct or the same one) succeeds and changes nothing; decoding the parameter again yields the default"
+//verif:harness id=C13 tier=quick,thorough witness=end bounds="parameter defaults: query / header / cookie parameter with schema integer default 7 / 7.0 / 1000000.0 (as decoded from JSON), string default 'd', array of integers default [1,2] (style form/spaceDelimited/pipeDelimited, explode on/off), or object default {a:1,b:x} (query deepObject / form exploded or not, header simple with explode unset / true / false, cookie form not exploded, alone or between two other cookies which must be forwarded as received); parameter absent, present with a value, or present but empty; declared on the operation, on the path item, or on the path item behind a parameter the operation overrides; SkipSettingDefaults on/off; after ValidateRequest the forwarded request carries the default exactly when it was absent and defaults are on; validating the forwarded request again (with a fresh input struct or the same one) succeeds and changes nothing; decoding the parameter again yields the default"
 func verifH_C13_param_defaults() {
 	verifMapOrder() // map iteration order is unspecified: ascending and descending key order
 	in := []string{"query", "header", "cookie"}[verifChoose("in", 3)]
@@ -142,9 +142,16 @@ func verifH_C13_param_defaults() {
 			param.Explode = &f
 		}
 	}
-	if in == "header" && shape == 3 && verifChoose("hexplode", 2) == 1 {
-		t := true
-		param.Explode = &t
+	if in == "header" && shape == 3 {
+		// explode unset (= false for style simple), stated true, stated false
+		switch verifChoose("hexplode", 3) {
+		case 1:
+			t := true
+			param.Explode = &t
+		case 2:
+			f := false
+			param.Explode = &f
+		}
 	}
 	if in == "cookie" && shape >= 2 {
 		f := false
@@ -216,6 +223,15 @@ func verifH_C13_param_defaults() {
 			req.Header["Cookie"] = []string{"P=" + text}
 		}
 	}
+	// a cookie parameter travels with the request's other cookies, which are none of its business
+	otherCookies := in == "cookie" && verifChoose("otherCookies", 2) == 1
+	if otherCookies {
+		line := "session=abc"
+		if len(req.Header["Cookie"]) == 1 {
+			line += "; " + req.Header["Cookie"][0]
+		}
+		req.Header["Cookie"] = []string{line + "; theme=dark"}
+	}
 	skip := verifChoose("skip", 2) == 1
 	opts := &Options{SkipSettingDefaults: skip}
 	route := &routers.Route{Spec: &openapi3.T{}, PathItem: pathItem, Operation: op, Method: "GET"}
@@ -224,6 +240,11 @@ func verifH_C13_param_defaults() {
 	sameInput := verifChoose("sameInput", 2) == 1
 	first := &RequestValidationInput{Request: req, Route: route, Options: opts}
 	err := ValidateRequest(context.Background(), first)
+	if otherCookies {
+		c1, e1 := req.Cookie("session")
+		c2, e2 := req.Cookie("theme")
+		verifAssert(e1 == nil && e2 == nil && c1.Value == "abc" && c2.Value == "dark", "C13 parameter defaults: the request's other cookies are forwarded as received")
+	}
 	if presence == 2 {
 		// present but empty: whatever the verdict, validating again must not keep changing the request
 		raw1, hdr1, ck1 := req.URL.RawQuery, strings.Join(req.Header["P"], "|"), strings.Join(req.Header["Cookie"], "|")
